@@ -16,6 +16,14 @@ Proof.
   change FUEL with (S (4 + 11))%nat. rewrite run_S. apply (okres_not_dropped I). apply Hseg, Hp.
 Qed.
 
+Lemma hook_not_dropped_pt : forall cs e I body top p,
+  lookup cs top = Some body -> (forall n, okres I (G cs e (4 + n) body p)) ->
+  not_dropped (hook cs e top p) = true.
+Proof.
+  intros cs e I body top p Hl H. unfold hook, run_chain. rewrite Hl.
+  change FUEL with (S (4 + 11))%nat. rewrite run_S. apply (okres_not_dropped I). apply H.
+Qed.
+
 Lemma disp_ok_lookup : forall cs root fs, hep_disp_ok cs root fs = true -> exists b, lookup cs root = Some b.
 Proof. intros cs root fs H. unfold hep_disp_ok, disp_ok in H. destruct (lookup cs root) as [b|]; [exists b; reflexivity|discriminate]. Qed.
 
@@ -37,15 +45,17 @@ Record hep_shapes (raw mangle filter : chains) : Prop := {
   sh_filter_in : hep_disp_ok filter CH_FROM_HEP CH_FS_IN = true;
   sh_filter_out : hep_disp_ok filter CH_TO_HEP CH_FS_OUT = true
 }.
+(* kube-ipvs mode only: cali-set-endpoint-mark has its shape (Shape.setmark_ok) *)
+Definition ipvs_shape (c : cfg) (filter : chains) : Prop := c_ipvs c = true -> setmark_ok filter (c_prefixes c) = true.
 
 Theorem failsafe_accept_all_paths : forall c raw mangle filter e p,
   cfg_ok c -> N.land (c_wg_mark c) (c_scr0 c) = 0 ->
   (forall q m, e_other e (2 * O_DST_LOCAL) (set_mark q m) = e_other e (2 * O_DST_LOCAL) q) ->
-  installed c raw mangle filter -> hep_shapes raw mangle filter ->
+  installed c raw mangle filter -> hep_shapes raw mangle filter -> ipvs_shape c filter ->
   pk_ver p = c_ver c ->
   fs_in_ok c raw mangle filter e p = true /\ fs_out_ok c raw mangle filter e p = true.
 Proof.
-  intros c raw mangle filter e p Hc Hwg Hlocal [Hr Hm Hf] [S1 S2 S3 S3o [dscp [Hdl Hdn]] S4 S5] Hv. split.
+  intros c raw mangle filter e p Hc Hwg Hlocal [Hr Hm Hf] [S1 S2 S3 S3o [dscp [Hdl Hdn]] S4 S5] Hipvs Hv. split.
   - unfold fs_in_ok. destruct (_ && _) eqn:Econd; [|reflexivity].
     rewrite !andb_true_iff, !negb_true_iff in Econd. destruct Econd as [[[E1 E2] E3] E4].
     assert (Hp : I_in c e p) by (unfold I_in; repeat split; assumption).
@@ -57,18 +67,19 @@ Proof.
       apply (hook_not_dropped mangle e (I_in c e) (mangle_prerouting c)); [apply (Hm (CH_PREROUTING, _)); cbn; tauto| |exact Hp].
       intro n. apply (fs_in_mangle_prerouting c mangle e Hc Hlocal n d); [apply (Hm (CH_FS_IN, _)); cbn; tauto|exact Hd|exact S3].
     + destruct (disp_ok_lookup _ _ _ S4) as [d Hd].
-      apply (hook_not_dropped filter e (I_in c e) (filter_input c)); [apply (Hf (CH_INPUT, _)); cbn; tauto| |exact Hp].
-      intro n. apply (fs_in_filter_input c filter e Hc Hlocal n d); [apply (Hf (CH_FS_IN, _)); cbn; tauto|exact Hd|exact S4].
+      apply (hook_not_dropped filter e (I_in c e) (filter_input c)); [apply (Hf (CH_INPUT, _)); unfold static_filter; apply in_or_app; left; cbn; tauto| |exact Hp].
+      intro n. apply (fs_in_filter_input c filter e Hc Hlocal n d); [|apply (Hf (CH_FS_IN, _)); unfold static_filter; apply in_or_app; left; cbn; tauto|exact Hd|exact S4].
+      intro Ei. split; [|apply Hipvs, Ei]. apply (Hf (CH_FWD_CHECK, _)). unfold static_filter. rewrite Ei. apply in_or_app. right. left. reflexivity.
   - unfold fs_out_ok. destruct (_ && _) eqn:Econd; [|reflexivity].
-    rewrite !andb_true_iff, !negb_true_iff in Econd. destruct Econd as [[E1 E2] E3].
+    rewrite !andb_true_iff, !negb_true_iff in Econd. destruct Econd as [[[E1 E2] E3] E4].
     assert (Hp : I_out c p) by (unfold I_out; repeat split; assumption).
     rewrite !andb_true_iff. split; [split|].
     + destruct (disp_ok_lookup _ _ _ S2) as [d Hd].
       apply (hook_not_dropped raw e (I_out c) (raw_output c)); [apply (Hr (CH_OUTPUT, _)); cbn; tauto| |exact Hp].
       intro n. apply (fs_out_raw_output c raw e n d); [apply (Hr (CH_FS_OUT, _)); cbn; tauto|exact Hd|exact S2].
     + destruct (disp_ok_lookup _ _ _ S5) as [d Hd].
-      apply (hook_not_dropped filter e (I_out c) (filter_output c)); [apply (Hf (CH_OUTPUT, _)); cbn; tauto| |exact Hp].
-      intro n. apply (fs_out_filter_output c filter e Hc n d); [apply (Hf (CH_FS_OUT, _)); cbn; tauto|exact Hd|exact S5].
+      apply (hook_not_dropped_pt filter e (I_out c) (filter_output c)); [apply (Hf (CH_OUTPUT, _)); unfold static_filter; apply in_or_app; left; cbn; tauto|].
+      intro n. apply (fs_out_filter_output c filter e Hc n d p); [apply (Hf (CH_FS_OUT, _)); unfold static_filter; apply in_or_app; left; cbn; tauto|exact Hd|exact S5|exact Hp|exact E4].
     + destruct (disp_ok_lookup _ _ _ S3o) as [d Hd].
       apply (hook_not_dropped mangle e (I_out c) (mangle_postrouting c)); [apply (Hm (CH_POSTROUTING, _)); cbn; tauto| |exact Hp].
       intro n. apply (fs_out_mangle_postrouting c mangle e n d dscp); [apply (Hm (CH_FS_OUT, _)); cbn; tauto|exact Hd|exact S3o|exact Hdl|exact Hdn].
